@@ -152,8 +152,7 @@ let handle (line : string) : string =
       (match norm_pattern uname (dec_bool isb) (dec_bool nrm) (dec_bool raw) (dec_str p) with
        | Inl t -> "ok " ^ enc_str t
        | Inr NSyntax -> "syntaxerror"
-       | Inr NLookup -> "keyerror"
-       | Inr NValue -> "valueerror")
+       | Inr NLookup -> "keyerror")
   | ["escape"; isb; p] -> enc_str (escape (dec_bool isb) (dec_str p))
   | ["ismagic"; isb; fl; p] -> enc_bool (is_magic (dec_bool isb) (z_of_int (int_of_string fl)) (dec_str p))
   | ["wcwalk"; follow; aborted; root; lst; lk; vfo; vfi; mk; sk] ->
